@@ -187,12 +187,15 @@ def readComp (tpl : Tpl) (T : Shared) (k : Kind) (f : File) : Option Shared :=
   | .metadata, .mdata a => some { T with m := ⟨a⟩ }
   | _, _ => none
 
-/-- `hybridSearchIndex.ReadFrom` over the MultiReader. `prevCut` = the previous
+/-- `hybridSearchIndex.ReadFrom` over the MultiReader, followed by getIndex's drain of the
+    MultiReader (`io.Copy(io.Discard, combinedReader)`, repair ae56580). `prevCut` = the previous
     component's gzip stream lacked its trailer: the error surfaces on this component's
-    first read. Returns (succeeded?, shared content afterwards — partially replaced on
-    failure, because the sub-indexes are the shared templates). -/
+    first read — or, for the LAST component, in the drain, i.e. after every component has
+    been deserialised into the templates. Returns (succeeded?, shared content afterwards —
+    partially or, in the drain case, completely replaced on failure, because the sub-indexes
+    are the shared templates). -/
 def readAll (tpl : Tpl) (T : Shared) (prevCut : Bool) : List (Kind × File) → Bool × Shared
-  | [] => (true, T)
+  | [] => (!prevCut, T)
   | (k, f) :: rest =>
     if prevCut then (false, T) else
     match readComp tpl T k f with
